@@ -61,10 +61,11 @@ func (d *Data) UnmarshalBinary(data []byte) error {
 // ToProto converts SignedHeader into protobuf representation and returns it.
 func (sh *SignedHeader) ToProto() (*pb.SignedHeader, error) {
 	if sh.Signer.PubKey == nil {
+		// a signer without a key (e.g. the genesis header a full node stores) still has an address
 		return &pb.SignedHeader{
 			Header:    sh.Header.ToProto(),
 			Signature: sh.Signature[:],
-			Signer:    &pb.Signer{},
+			Signer:    &pb.Signer{Address: sh.Signer.Address},
 		}, nil
 	}
 
@@ -109,6 +110,8 @@ func (sh *SignedHeader) FromProto(other *pb.SignedHeader) error {
 			Address: append([]byte(nil), other.Signer.Address...),
 			PubKey:  pubKey,
 		}
+	} else if other.Signer != nil && len(other.Signer.Address) > 0 {
+		sh.Signer = Signer{Address: append([]byte(nil), other.Signer.Address...)}
 	} else {
 		sh.Signer = Signer{}
 	}
@@ -363,7 +366,7 @@ func (sd *SignedData) ToProto() (*pb.SignedData, error) {
 			PubKey:  pubKey,
 		}
 	} else {
-		signerProto = &pb.Signer{}
+		signerProto = &pb.Signer{Address: sd.Signer.Address}
 	}
 
 	return &pb.SignedData{
@@ -398,6 +401,8 @@ func (sd *SignedData) FromProto(other *pb.SignedData) error {
 			Address: append([]byte(nil), other.Signer.Address...),
 			PubKey:  pubKey,
 		}
+	} else if other.Signer != nil && len(other.Signer.Address) > 0 {
+		sd.Signer = Signer{Address: append([]byte(nil), other.Signer.Address...)}
 	} else {
 		sd.Signer = Signer{}
 	}
